@@ -48,8 +48,19 @@ def run(ctx, rep):
     for i in range(ctx.n(300, 8000)):
         cfg = M.gen_cfg(rng, color_only=False)
         cfg.d["fileRaw"] = 0; cfg.d["fileOmit"] = 0
-        if rng.random() < 0.8:
+        r = rng.random()
+        if r < 0.7:
             lines, files = M.gen_git_diff(rng)
+            src = "git"
+        elif r < 0.82:
+            # `git diff` during a merge: one combined hunk, with conflict regions (sometimes as the first thing in the hunk)
+            lines, files = M.gen_combined_diff(rng)
+            if rng.random() < 0.4 and "++<<<<<<< HEAD" in lines:
+                lines = lines[:5] + lines[lines.index("++<<<<<<< HEAD"):]
+                files[0]["lines"] = lines
+            if rng.random() < 0.5:
+                l2, f2 = M.gen_git_diff(rng, with_commit=False)
+                lines, files = (l2 + lines, f2 + files) if rng.random() < 0.5 else (lines + l2, files + f2)
             src = "git"
         else:
             lines, files = M.gen_plain_diff(rng)
@@ -87,7 +98,8 @@ def run(ctx, rep):
         # hunk headers: one per hunk, carrying the fragment unchanged
         if not cfg.d["hhRaw"] and not cfg.d["hhOmit"] and cfg.d["hhFragment"] and (cfg.d["hhLineNumber"] or cfg.d["hhFile"]):
             hh = [t for k, t in impl.rows if k == "hunkHeader"]
-            hunks = [h for f in files for h in f["hunks"]] + [None for f in files if f.get("submodule")]
+            hunks = [h for f in files for h in (f["hunks"] or ([f["combined_hunk"]] if "combined_hunk" in f else []))] + \
+                [None for f in files if f.get("submodule")]
             hunks = [h for h in hunks if h is not None]
             nsub = sum(1 for f in files if f.get("submodule"))
             if len(hh) != len(hunks):
